@@ -1,11 +1,13 @@
 """C20 — the GUI parameter index stays coherent over any edit history."""
 import contextlib
 import io
+import json
 
 import mgen
 from common import freephil, enc, dec, call_j
 from props import _fetch
-from props.C09 import close, to_pval
+import random
+from props.C09 import close, to_pval, assign, fmt_tables
 
 LEVEL = "proof"
 MODULE = "Phil.Props.C20"
@@ -41,8 +43,10 @@ def gen_history(rng, tree):
             ops.append(["pop"])
         elif k < 0.7 and depth > 0:
             ops.append(["set", rng.randrange(depth)])
-        elif k < 0.8:
+        elif k < 0.74:
             ops.append(["from_python"])
+        elif k < 0.82:
+            ops.append(["from_python_obj", rng.randrange(10 ** 6)])   # a separately extracted, edited object
         else:
             ops.append(["get"])
     return ops
@@ -68,6 +72,7 @@ def run_history(m, ops):
     """run on the implementation; returns (observations, failures, texts of every working set)"""
     from freephil.interface import index
     obs, fails, texts = [], [], []
+    wire, fm = [], {}
     buf = io.StringIO()
     with contextlib.redirect_stdout(buf):
         idx = index(master_phil=m)
@@ -87,6 +92,7 @@ def run_history(m, ops):
         observe(None)
         for step, op in enumerate(ops):
             got = None
+            wire.append([op[0], enc(op[1])] if op[0] == "update" else list(op))
             try:
                 if op[0] == "update":
                     before = idx.working_phil.as_str()
@@ -126,6 +132,46 @@ def run_history(m, ops):
                         continue
                     if len(idx._states) > n_before:
                         pushes.append(before_values)
+                elif op[0] == "from_python_obj":
+                    try:
+                        obj = idx.get_python_object(make_copy=True)
+                    except RuntimeError:
+                        wire[-1] = ["get_noop"]
+                        observe(None)
+                        continue
+                    klass = []
+                    assign(random.Random(op[1]), m, obj, klass, [])
+                    try:
+                        # only objects that are in the types' domains and outside the C09 finding classes
+                        text = m.format(python_object=obj).as_str()
+                        back = m.fetch(source=freephil.parse(input_string=text)).extract()
+                        in_domain = not klass and close(_fetch.dump(back), _fetch.dump(m.format(python_object=obj).extract()))
+                    except (RuntimeError, freephil.Sorry, Exception):
+                        in_domain = False
+                    if not in_domain:
+                        wire[-1] = ["get_noop"]
+                        observe(None)
+                        continue
+                    wire[-1] = ["from_python", to_pval(obj)]
+                    fmt_tables(obj, fm)
+                    before_values = values()
+                    n_before = len(idx._states)
+                    try:
+                        idx.update_from_python(obj)
+                    except RuntimeError:
+                        observe(None)
+                        continue
+                    if len(idx._states) > n_before:
+                        pushes.append(before_values)
+                    # the object that would be handed out next (cache logic of get_python_object, without touching it)
+                    # must equal a fresh extraction of the new working parameters
+                    try:
+                        fresh = idx.working_phil.extract()
+                        handed = fresh if (idx._phil_has_changed or idx.params is None) else idx.params
+                        if not close(_fetch.dump(handed), _fetch.dump(fresh)):
+                            fails.append((step, "after update_from_python(obj) the handed-out object differs from a fresh extraction"))
+                    except RuntimeError:
+                        pass
                 elif op[0] == "get":
                     try:
                         got = idx.get_python_object()
@@ -150,13 +196,14 @@ def run_history(m, ops):
                     fails.append((step, "path %s does not look up to the live object of the working tree" % path))
                     break
             observe(got)
-    return obs, fails, texts
+    return obs, fails, texts, wire, list(fm.values())
 
 
 def run(ctx):
     rng = ctx.rng
     n = ctx.scale(600, 10000, 2000)
     cases, reqs, impls = [], [], []
+    all_pending = []
     types = [t for t in mgen.TYPES if t is not None]
     for i in range(n):
         if ctx.time_left() < 30:
@@ -172,7 +219,7 @@ def run(ctx):
         for o in ops:
             ctx.count("op_" + o[0])
         try:
-            obs, fails, texts = run_history(m, ops)
+            obs, fails, texts, wire, fm_extra = run_history(m, ops)
         except (freephil.Sorry, RuntimeError):
             ctx.count("master_refused_by_index")
             continue
@@ -180,18 +227,33 @@ def run(ctx):
             ctx.fail({"master": mt, "ops": ops}, "index construction raised %s: %s" % (type(e).__name__, str(e)[:100]))
             continue
         case = {"master": mt, "ops": ops}
+        pending = []
         for step, what in fails[:1]:
-            ctx.fail(dict(case, step=step), what)
+            cls = None
+            if "pop_state did not restore" in what and any(o[0].startswith("from_python") for o in ops[:step]):
+                cls = ["D37"]
+            pending.append((dict(case, step=step), what, cls))
         if len(obs) == len(ops) + 1:
             ev, fm = mgen.tables([mt] + [o[1] for o in ops if o[0] == "update"] + texts)
-            wire_ops = [[o[0], enc(o[1])] if o[0] == "update" else o for o in ops]
-            reqs.append(["index", enc(mt), wire_ops, ev, fm])
+            reqs.append(["index", enc(mt), wire, ev, fm + fm_extra])
             impls.append(["ok", obs])
             cases.append(case)
+            all_pending.append((len(cases) - 1, pending))
+        else:
+            all_pending.append((None, pending))
         if i % 40 == 0:
             ctx.sample({"master": mt, "ops": ops})
+    disagreeing = set()
     if reqs and ctx.mode != "impl-only":
+        n0 = len(ctx.disagreements)
         ctx.corr("index", cases, reqs, impls, proj=project)
+        for d in ctx.disagreements[n0:]:
+            disagreeing.add(json.dumps(d["case"], sort_keys=True))
+    for idx_case, pending in all_pending:
+        for c, what, cls in pending:
+            key = json.dumps({"master": c["master"], "ops": c["ops"]}, sort_keys=True)
+            mv = None if idx_case is None else (key not in disagreeing)
+            ctx.fail(c, what, finding=cls, model_violates=mv)
 
 
 def project(obs):
@@ -199,9 +261,24 @@ def project(obs):
     return [[o[0], o[1], o[2], o[3], o[4] is not None] if isinstance(o, list) else o for o in obs]
 
 
+def finding_still_fails(f):
+    from freephil.interface import index
+    w = f["witness"]
+    m = freephil.parse(input_string=w["master"])
+    with contextlib.redirect_stdout(io.StringIO()):
+        idx = index(master_phil=m)
+        obj = idx.get_python_object(make_copy=True)
+        obj.b = list(w["values"])
+        idx.update_from_python(obj)
+        before = _fetch.dump(idx.working_phil.extract())
+        idx.push_state()
+        idx.pop_state()
+        return _fetch.dump(idx.working_phil.extract()) != before
+
+
 def replay(payload):
     c = payload["failure"]["case"]
     m = freephil.parse(input_string=c["master"])
-    obs, fails, _ = run_history(m, c["ops"])
+    obs, fails = run_history(m, c["ops"])[:2]
     print(fails)
     return not fails
